@@ -197,15 +197,26 @@ class Cell(NullCell):
 
     def order(self, result: dict = None) -> dict:
         """
-        :return: dict {<Cell>: <index>}
+        :return: dict {<Cell>: <index>} - every distinct cell once, each cell before all the cells it references
         """
         if result is None:
             result = {}
-        if self in result:
-            result.pop(self)
-        result[self] = None
-        for ref in self.refs:
-            ref.order(result)
+        # iterative depth-first post-order with a visited set: a shared sub-DAG is walked once, not once per path
+        post = []
+        seen = {self}
+        stack = [(self, 0)]
+        while stack:
+            cell, i = stack.pop()
+            if i < len(cell.refs):
+                stack.append((cell, i + 1))
+                ref = cell.refs[i]
+                if ref not in seen:
+                    seen.add(ref)
+                    stack.append((ref, 0))
+            else:
+                post.append(cell)
+        for cell in reversed(post):  # reverse post-order: parents before children, the root first
+            result[cell] = None
         return result
 
     def serialize(self, indexes: dict, byte_len: int) -> bytes:
